@@ -41,8 +41,8 @@
      IoM1                                                   R requests (`not channel.requests`)
      IoM2    `last_activity < cutoff` (environment) ->      W will_close := True     [DMaint]
      IoHR    handle_read 156-171: recv (wasyncore 404-420).  Data -> received; EOF or an errno
-             in _DISCONNECTED -> handle_close inside dispatcher.recv, b"" returned, then IoEof;
-             any other errno -> handle_close, return.
+             in _DISCONNECTED -> IoHRc1: handle_close inside dispatcher.recv, b"" returned, then
+             IoEof; any other errno -> IoHRc2: handle_close (162), return.
      IoEof   171                                            W connected := False     [DEof]
      IoRC0   received 200                                   acquire requests_lock
      IoRC1   207                                            R will_close       -> return (release)
@@ -54,7 +54,8 @@
      IoRClen 233                                            R requests (len == 1)
      IoRCadd 238                                            server.add_task(self)
      IoRCrel end of the `with`                              release requests_lock
-     IoWr    poll's `for fd in w`: map.get(fd) is None after a close -> skipped
+             (after the loop the release is the step taken at IoRCloop with no item left)
+     after_read: poll's `for fd in w`: map.get(fd) is None after a close -> skipped
      IoHW0   handle_write 95-113: choose and run the flush through _flush_exception:
              OSError -> 129                                 W will_close := True     [DFlushErrIO]
              disconnect errno inside send(do_close=True) -> handle_close     [DHandleClose]
@@ -62,7 +63,8 @@
      IoHW1b  115                                            R total_outbufs_len (value: environment)
      IoHW2   116                                            W close_when_flushed := False
      IoHW3   117                                            W will_close := True     [DFlushed]
-     IoHW4   119-120                                        R will_close -> handle_close [DHandleClose]
+     IoHW4   119                                            R will_close
+     IoHW5   120                                            handle_close             [DHandleClose]
      handle_close 309-321 is ONE step: W connected := False (+ total_outbufs_len := 0, and
              wasyncore.dispatcher.close: connected := False again, del_channel, socket.close).
      IoDead  the channel has left the map.
@@ -156,9 +158,9 @@ Inductive label :=
 Inductive iopc :=
 | IoTop | IoR2 | IoR3 | IoR4 | IoW1 | IoW2 | IoW3 | IoSel
 | IoM1 | IoM2
-| IoHR | IoEof
+| IoHR | IoHRc1 | IoHRc2 | IoEof
 | IoRC0 | IoRC1 | IoRC2 | IoRCloop | IoRClen | IoRCadd | IoRCrel
-| IoWr | IoHW0 | IoHW1 | IoHW1b | IoHW2 | IoHW3 | IoHW4
+| IoHW0 | IoHW1 | IoHW1b | IoHW2 | IoHW3 | IoHW4 | IoHW5
 | IoDead.
 
 Inductive wpc :=
@@ -177,7 +179,10 @@ Inductive sdpc := SdIdle | SdC1 | SdC2 | SdC3.
 (* one item of received data *)
 Inductive item :=
 | IReq (err : bool)      (* a completed, non-empty request; err: the parser flagged an error *)
-| ICont (dc : bool).     (* a head expecting 100-continue; dc: the flush hit a disconnect errno *)
+| ICont (dc : bool)      (* a head expecting 100-continue; dc: the flush hit a disconnect errno *)
+| IAbort.                (* a head expecting 100-continue whose flush raised another OSError: the
+                            exception leaves received() (releasing the lock) and handle_read;
+                            wasyncore.read() calls handle_error -> handle_close *)
 
 Inductive recvres := RData (items : list item) | REof | RErr.
 Inductive fres := FOk | FErr | FDisc.
@@ -290,6 +295,10 @@ Definition handle_close (s : state) : state := set_inmap (set_conn s false) fals
 
 Definition is_free (s : state) : bool := match rlock s with None => true | Some _ => false end.
 
+(* where the poll turn goes on after the read phase: poll's `for fd in w: obj = map.get(fd)`
+   skips a channel that has left the map; handle_write_event otherwise, if select said so *)
+Definition after_read (s : state) : iopc := if inmap s && wr s then IoHW0 else IoTop.
+
 (* ---- the I/O thread ------------------------------------------------------------- *)
 Definition step_io (s : state) (e : ioenv) : option (state * list label) :=
   match io s, e with
@@ -324,15 +333,20 @@ Definition step_io (s : state) (e : ioenv) : option (state * list label) :=
   (* select: only what was asked for can be reported *)
   | IoSel, ESelect a b =>
       if (implb a (rv s)) && (implb b (wv s)) then
-        Some (set_io (set_sel s a b) (if a then IoHR else IoWr), [])
+        let s1 := set_sel s a b in
+        Some (set_io s1 (if a && inmap s then IoHR else after_read s1), [])
       else None
   (* handle_read *)
   | IoHR, ERecv (RData l) => Some (set_io (set_items s l) IoRC0, [])
-  | IoHR, ERecv REof =>
+  | IoHR, ERecv REof => Some (set_io s IoHRc1, [])
+  | IoHR, ERecv RErr => Some (set_io s IoHRc2, [])
+  | IoHRc1, ENone =>
       Some (set_io (decide (handle_close s) DHandleClose) IoEof, [LDecide DHandleClose])
-  | IoHR, ERecv RErr =>
-      Some (set_io (decide (handle_close s) DHandleClose) IoWr, [LDecide DHandleClose])
-  | IoEof, ENone => Some (set_io (decide (set_conn s false) DEof) IoWr, [LDecide DEof])
+  | IoHRc2, ENone =>
+      let s1 := decide (handle_close s) DHandleClose in
+      Some (set_io s1 (after_read s1), [LDecide DHandleClose])
+  | IoEof, ENone =>
+      let s1 := decide (set_conn s false) DEof in Some (set_io s1 (after_read s1), [LDecide DEof])
   (* received *)
   | IoRC0, ENone =>
       if is_free s then Some (set_io (set_rlock s (Some ByIO)) IoRC1, []) else None
@@ -342,7 +356,7 @@ Definition step_io (s : state) (e : ioenv) : option (state * list label) :=
       if cwf s then Some (set_io (set_items s []) IoRCrel, [LRefused]) else Some (set_io s IoRCloop, [])
   | IoRCloop, ENone =>
       match items s with
-      | [] => Some (set_io s IoRCrel, [])
+      | [] => let s1 := set_rlock s None in Some (set_io s1 (after_read s1), [])
       | IReq e :: rest =>
           let r := mkReq (nreq s) e in
           Some (set_io (set_items (set_nreq (set_reqs s (reqs s ++ [r])) (S (nreq s))) rest) IoRClen,
@@ -350,14 +364,13 @@ Definition step_io (s : state) (e : ioenv) : option (state * list label) :=
       | ICont dc :: rest =>
           if dc then Some (set_items (decide (handle_close s) DHandleClose) rest, [LDecide DHandleClose])
           else Some (set_items s rest, [])
+      | IAbort :: _ => Some (set_io (set_rlock (set_items s []) None) IoHRc2, [])
       end
   | IoRClen, ENone =>
       if Nat.eqb (length (reqs s)) 1 then Some (set_io s IoRCadd, []) else Some (set_io s IoRCloop, [])
   | IoRCadd, ENone => Some (set_io (set_queue s (S (queue s))) IoRCloop, [LAddTask ByIO])
-  | IoRCrel, ENone => Some (set_io (set_rlock s None) IoWr, [])
-  (* the write phase of the turn *)
-  | IoWr, ENone =>
-      if inmap s && wr s then Some (set_io s IoHW0, []) else Some (set_io s IoTop, [])
+  | IoRCrel, ENone => let s1 := set_rlock s None in Some (set_io s1 (after_read s1), [])
+  (* handle_write *)
   | IoHW0, EFlush FOk => Some (set_io s IoHW1, [])
   | IoHW0, EFlush FErr =>
       Some (set_io (decide (set_wc s true) DFlushErrIO) IoHW1, [LDecide DFlushErrIO])
@@ -367,9 +380,9 @@ Definition step_io (s : state) (e : ioenv) : option (state * list label) :=
   | IoHW1b, ELen n => if Nat.eqb n 0 then Some (set_io s IoHW2, []) else Some (set_io s IoHW4, [])
   | IoHW2, ENone => Some (set_io (set_cwf s false) IoHW3, [])
   | IoHW3, ENone => Some (set_io (decide (set_wc s true) DFlushed) IoHW4, [LDecide DFlushed])
-  | IoHW4, ENone =>
-      if wc s then Some (set_io (decide (handle_close s) DHandleClose) IoTop, [LDecide DHandleClose])
-      else Some (set_io s IoTop, [])
+  | IoHW4, ENone => if wc s then Some (set_io s IoHW5, []) else Some (set_io s IoTop, [])
+  | IoHW5, ENone =>
+      Some (set_io (decide (handle_close s) DHandleClose) IoTop, [LDecide DHandleClose])
   | _, _ => None
   end.
 
